@@ -8,6 +8,8 @@
 -/
 import DateutilVerif.Proofs.ParserGenYmd
 import DateutilVerif.Proofs.ParserGenStrids
+import DateutilVerif.Proofs.ParserGenSmall
+import DateutilVerif.Proofs.ParserGenHms
 
 namespace ParserGen
 open PM Py
@@ -50,5 +52,89 @@ example : Gen.P.ymd_resolveYmd { vals := [13, 12] } false true = .ok (none, some
 example : Gen.P.ymd_resolveYmd { vals := [1, 2, 3, 4] } false false = .error .ValueError := by decide
 example : Gen.P.ymd_resolveFromStridxs { vals := [5, 2003, 7], yIdx := some 1, mIdx := some 2 } [('y', 1), ('m', 2)]
     = .ok (some 2003, some 7, some 5) := by decide
+
+/-! ### `parserinfo` -/
+
+theorem gen_eq_model_info_jump (i : Info) (t : Token) : Gen.P.info_jump i t = .ok (i.isJump t) := PGen.info_jump_eq i t
+theorem gen_eq_model_info_weekday (i : Info) (t : Token) : Gen.P.info_weekday i t = .ok (i.weekdayOf t) :=
+  PGen.info_weekday_eq i t
+theorem gen_eq_model_info_month (i : Info) (t : Token) : Gen.P.info_month i t = .ok (i.monthOf t) := PGen.info_month_eq i t
+theorem gen_eq_model_info_hms (i : Info) (t : Token) : Gen.P.info_hms i t = .ok (i.hmsOf t) := PGen.info_hms_eq i t
+theorem gen_eq_model_info_ampm (i : Info) (t : Token) : Gen.P.info_ampm i t = .ok (i.ampmOf t) := PGen.info_ampm_eq i t
+theorem gen_eq_model_info_pertain (i : Info) (t : Token) : Gen.P.info_pertain i t = .ok (i.isPertain t) :=
+  PGen.info_pertain_eq i t
+theorem gen_eq_model_info_utczone (i : Info) (t : Token) : Gen.P.info_utczone i t = .ok (i.isUtczone t) :=
+  PGen.info_utczone_eq i t
+/-- `parserinfo.tzoffset(name)`: `name in self._utczone` is tested WITHOUT lower-casing, then `TZOFFSET.get(name)` -/
+theorem gen_eq_model_info_tzoffset (i : Info) (t : Token) : Gen.P.info_tzoffset i t = .ok (i.tzoffsetOf t) :=
+  PGen.info_tzoffset_eq i t
+
+/- Full statement: `∀ i res, Gen.P.info_validate i res = PM.validate i res`.  It is FALSE for a parserinfo whose `_century`
+   is below 100: there `convertyear` can return a negative year (`_year = 30`, year 90 ↦ −10), which Python stores and the
+   model clamps to 0 (`Int.toNat`); the translation says NotImplemented for it.  Proved for every parserinfo with
+   `_century ≥ 100`, i.e. every `_year = time.localtime().tm_year ≥ 100`. -/
+/-- `parserinfo.validate(res)`: the year conversion and the three UTC rewrites of `tzname` / `tzoffset` -/
+theorem gen_eq_model_info_validate_partial (i : Info) (res : Res) (hc : 100 ≤ i.century) :
+    Gen.P.info_validate i res = PM.validate i res := PGen.validate_eq i res hc
+
+/-! ### the small methods of `parser` -/
+
+theorem gen_eq_model_could_be_tzname (i : Info) (hour : Option Nat) (tzname : Option Token) (tzoffset : Option Int)
+    (t : Token) : Gen.P.couldBeTzname i hour tzname tzoffset t = .ok (PM.couldBeTzname i hour tzname tzoffset t) :=
+  PGen.couldBeTzname_eq i hour tzname tzoffset t
+
+/-- `_ampm_valid`: True exactly where the model hands back the hour to adjust; the same two ValueErrors -/
+theorem gen_eq_model_ampm_valid (i : Info) (hour ampm : Option Nat) (fuzzy : Bool) :
+    Gen.P.ampmValid i hour ampm fuzzy = (PM.ampmValid hour ampm fuzzy).map Option.isSome :=
+  PGen.ampmValid_eq i hour ampm fuzzy
+
+/-- `_to_decimal`: `Decimal(val)` (a named primitive: the value of a lexer token, or one of the specials, or
+    InvalidOperation), `is_finite()`, every exception re-raised as ValueError -/
+theorem gen_eq_model_to_decimal (cls : Char → CClass) (i : Info) (t : Token) :
+    Gen.P.toDecimal cls i t = PM.toDecimal cls t := PGen.toDecimal_eq cls i t
+
+/-- `_parse_min_sec`: `int(value)`, `value % 1` and `60 * r` in the 28-digit context (named primitives) -/
+theorem gen_eq_model_parse_min_sec (i : Info) (v : Dec) : Gen.P.parseMinSec i v = PM.parseMinSec v :=
+  PGen.parseMinSec_eq i v
+
+/-- `_parsems`: the `.` test, the two-piece split, the `ljust(6, "0")[:6]` padding -/
+theorem gen_eq_model_parsems (cls : Char → CClass) (i : Info) (t : Token) : Gen.P.parsems cls i t = PM.parsems cls t :=
+  PGen.parsems_eq cls i t
+
+/-- `_assign_hms`: hour (+ minutes from the fraction) / minute+second / second+microsecond by the unit index -/
+theorem gen_eq_model_assign_hms (cls : Char → CClass) (i : Info) (res : Res) (t : Token) (hms : Nat) :
+    Gen.P.assignHms cls i res t hms = PM.assignHms cls res t hms := PGen.assignHms_eq cls i res t hms
+
+/-- `_find_hms_idx`, for a token index inside the list (where `_parse_numeric_token` calls it): the four look-arounds
+    in order (next; next-but-one over a blank when jumps are allowed; previous; previous-but-one over a blank when
+    the token is the last one) -/
+theorem gen_eq_model_find_hms_idx (i : Info) (idx : Nat) (l : List Token) (aj : Bool) (hidx : idx < l.length) :
+    Gen.P.findHmsIdx i idx l aj = .ok ((PM.findHmsIdx i idx l aj).map (·.1)) := PGen.findHmsIdx_eq i idx l aj hidx
+
+/-- `_parse_hms` on what `_find_hms_idx` found: the new index and the unit the model's `numHms` uses (a label BEHIND
+    the number means the next unit) -/
+theorem gen_eq_model_parse_hms (i : Info) (idx : Nat) (l : List Token) (aj : Bool) (j h0 : Nat)
+    (h : PM.findHmsIdx i idx l aj = some (j, h0)) :
+    Gen.P.parseHms i idx l (some j) = .ok (if j > idx then j else idx, some (if j > idx then h0 else h0 + 1)) ∧
+    Gen.P.parseHms i idx l none = .ok (idx, none) :=
+  PGen.parseHms_eq i idx l j h0 (PGen.findHmsIdx_spec i idx l aj j h0 h)
+
+/-- `_assign_tzname` on a fold-0 datetime whose zone is called `n0` / `n1` at fold 0 / 1 -/
+theorem gen_eq_model_assign_tzname (i : Info) (n0 n1 tzname : Option Token) :
+    Gen.P.assignTzname i { n0 := n0, n1 := n1, fold := 0 } tzname =
+      .ok { n0 := n0, n1 := n1, fold := PM.assignFold n0 n1 tzname } := PGen.assignTzname_eq i n0 n1 tzname
+
+example : Gen.P.info_month (Info.default false false 2026 2000) (tk "SEPT") = .ok (some 9) := by decide
+example : Gen.P.info_validate (Info.default false false 2026 2000) { year := some 99, tzname := some (tk "z") }
+    = .ok { year := some 1999, tzname := some (tk "UTC"), tzoffset := some 0 } := by decide
+example : (100 : Int) ≤ (Info.default false false 2026 2000).century := by decide
+example : Gen.P.ampmValid (Info.default false false 2026 2000) (some 13) none false = .error .ValueError := by decide
+example : Gen.P.parsems asciiCls (Info.default false false 2026 2000) (tk "59.5") = .ok (59, 500000) := by decide
+example : Gen.P.findHmsIdx (Info.default false false 2026 2000) 0 [tk "12", tk " ", tk "h"] true = .ok (some 2) := by
+  decide
+example : PM.findHmsIdx (Info.default false false 2026 2000) 2 [tk "h", tk "04"] true = none := by decide
+example : PM.findHmsIdx (Info.default false false 2026 2000) 1 [tk "h", tk "04"] true = some (0, 0) := by decide
+example : Gen.P.assignTzname (Info.default false false 2026 2000) { n0 := some (tk "EDT"), n1 := some (tk "EST") }
+    (some (tk "EST")) = .ok { n0 := some (tk "EDT"), n1 := some (tk "EST"), fold := 1 } := by decide
 
 end ParserGen
